@@ -17,7 +17,8 @@ DECIDED = ["R13a rollback runs to the end (loop-exit classification)",
            "R13e nothing reachable from rollback records undo commands",
            "R13f undo commands are recorded in the order of their mutations",
            "R11a key-value store and indexes are co-updated with the per-(value, id) primitives, forward and in the rollback arms (shared with C11)",
-           "R09d insert_or_replace reports None only after an insertion (shared with C09)"]
+           "R09d insert_or_replace reports None only after an insertion (shared with C09)",
+           "R08g every removal releases its slot through free_index (shared with C08)"]
 UNDECIDED = ["equality of the database state before the transaction and after rollback (needs execution)",
              "correct payload of each pushed command (old value vs new value)"]
 
@@ -324,4 +325,7 @@ def run(ctx):
     # the index update / undo command is chosen by what insert_or_replace reports (R09d, shared with C09)
     from rules import C09
     C09.insert_or_replace_contract_rule(ctx)
+    # ids of re-created / scanned elements depend on the free-list discipline of the graph (R08g, shared with C08)
+    from rules import C08
+    C08.slot_release_rule(ctx)
     return 0
